@@ -227,22 +227,19 @@ Proof.
 Qed.
 
 Lemma otlp_decode_flat b :
-  forallb r_has_res b = true ->
   otlp_decode fixed b = mapM (fun x => otlp_span fixed (fst x) (snd x)) (batch_spans b).
 Proof.
-  unfold otlp_decode, batch_spans. induction b as [|r b IH]; intros H; [reflexivity|].
-  cbn [forallb] in H. apply andb_prop in H. destruct H as [Hr Hb]. specialize (IH Hb).
+  unfold otlp_decode, batch_spans. induction b as [|r b IH]; [reflexivity|].
   cbn [mapM flat_map]. rewrite mapM_app, mapM_map. cbn [fst snd].
-  unfold otlp_res at 1. rewrite Hr.
-  destruct (mapM (otlp_span fixed (r_attrs r)) (List.concat (r_scopes r))) as [x|]; [|reflexivity].
+  unfold otlp_res at 1. cbn [fixed q_nil_resource negb]. rewrite orb_true_r.
+  destruct (mapM (otlp_span fixed (res_attrs r)) (List.concat (r_scopes r))) as [x|]; [|reflexivity].
   rewrite <- IH. destruct (mapM (otlp_res fixed) b) as [y|]; reflexivity.
 Qed.
 
 Lemma otlp_rows b rows ps :
   otlp_decode fixed b = Some rows -> pushed_of (InOtlp b) = Some ps -> Forall2 span_rows_of ps rows.
 Proof.
-  cbn [pushed_of]. destruct (forallb r_has_res b) eqn:Hres; [|discriminate].
-  rewrite (otlp_decode_flat b Hres). intros Hd Hp.
+  cbn [pushed_of]. rewrite (otlp_decode_flat b). intros Hd Hp.
   eapply (mapM_Forall2 _ _ span_rows_of); [|exact Hd|exact Hp].
   intros [ra s] sr p Hs Hpu. cbn [fst snd] in *. apply (otlp_span_pushed ra s sr p Hs Hpu).
 Qed.
@@ -928,8 +925,7 @@ Lemma otlp_read_back b rows ps :
   otlp_decode fixed b = Some rows -> pushed_of (InOtlp b) = Some ps -> otlp_times_ok b ->
   Forall2 (fun p sr => reads_back p (read_row fixed [] (fst sr))) ps rows.
 Proof.
-  cbn [pushed_of]. destruct (forallb r_has_res b) eqn:Hres; [|discriminate].
-  rewrite (otlp_decode_flat b Hres). unfold otlp_times_ok. generalize (batch_spans b). intros l.
+  cbn [pushed_of]. rewrite (otlp_decode_flat b). unfold otlp_times_ok. generalize (batch_spans b). intros l.
   revert rows ps. induction l as [|[ra s] l IH]; intros rows ps Hd Hp Ht; cbn [mapM fst snd] in Hd, Hp.
   - inversion Hd; inversion Hp. constructor.
   - destruct (otlp_span fixed ra s) as [sr|] eqn:Es; [|discriminate].
@@ -1000,7 +996,7 @@ Qed.
 
 Lemma otlp_tags_unique_l b ps : pushed_of (InOtlp b) = Some ps -> Forall (fun p => keys_unique (p_tags p)) ps.
 Proof.
-  cbn [pushed_of]. destruct (forallb r_has_res b); [|discriminate]. generalize (batch_spans b). intros l. revert ps.
+  cbn [pushed_of]. generalize (batch_spans b). intros l. revert ps.
   induction l as [|[ra s] l IH]; intros ps H; cbn [mapM fst snd] in H.
   - inversion H. constructor.
   - destruct (otlp_pushed ra s) as [p|] eqn:Ep; [|discriminate].
@@ -1080,19 +1076,37 @@ Qed.
 
 (* the behaviour before the four repairs violates the property on these very requests *)
 Example legacy_list_attrs_dropped :
-  spec_ok (model_case {| q_list_drop := true; q_remote_inverted := false; q_nd_stateful := false; q_peer_first := false; q_parent_payload := false; q_time_wrap := false |} ex_otlp) = false.
+  spec_ok (model_case (with_quirk 0) ex_otlp) = false.
 Proof. vm_compute. reflexivity. Qed.
 Example legacy_peer_service_rewrites :
-  spec_ok (model_case {| q_list_drop := false; q_remote_inverted := false; q_nd_stateful := false; q_peer_first := true; q_parent_payload := false; q_time_wrap := false |} ex_otlp) = false.
+  spec_ok (model_case (with_quirk 3) ex_otlp) = false.
 Proof. vm_compute. reflexivity. Qed.
 Example legacy_remote_overrides_local :
-  spec_ok (model_case {| q_list_drop := false; q_remote_inverted := true; q_nd_stateful := false; q_peer_first := false; q_parent_payload := false; q_time_wrap := false |} (ex_zipkin false)) = false.
+  spec_ok (model_case (with_quirk 1) (ex_zipkin false)) = false.
 Proof. vm_compute. reflexivity. Qed.
 Example legacy_short_parent_lost :
-  spec_ok (model_case {| q_list_drop := false; q_remote_inverted := false; q_nd_stateful := false; q_peer_first := false; q_parent_payload := true; q_time_wrap := false |}
+  spec_ok (model_case (with_quirk 4)
                       (InZipkin false [short_parent_span])) = false
   /\ spec_ok (model_case fixed (InZipkin false [short_parent_span])) = true.
 Proof. vm_compute. split; reflexivity. Qed.
+(* a ResourceSpans entry without the (optional) resource message: a resource without attributes.  Every span of the export gets its
+   rows and reads back; before the repair the nil dereference refused the whole export *)
+Definition ex_otlp_nores : input :=
+  InOtlp [ {| r_has_res := false; r_attrs := [];
+              r_scopes := [[]; [ {| o_trace := hx "a2a2a2a2a2a2a2a2a2a2a2a2a2a2a2a2"; o_span := hx "1212121212121212"; o_parent := "";
+                                    o_name := "lookup"; o_start := 1727700000000000000; o_end := 1727700000000005000; o_kind := 1;
+                                    o_attrs := [("k", AStr "v")] |} ]] |};
+           {| r_has_res := true; r_attrs := [("service.name", AStr "cart")];
+              r_scopes := [[ {| o_trace := hx "a3a3a3a3a3a3a3a3a3a3a3a3a3a3a3a3"; o_span := hx "1313131313131313"; o_parent := "";
+                                o_name := "render"; o_start := 1727700000000001000; o_end := 1727700000000002000; o_kind := 2;
+                                o_attrs := [] |} ]] |} ].
+Example ex_nil_resource_accepted :
+  option_map (map (fun sr => (t_name (fst sr), t_service (fst sr)))) (decode fixed ex_otlp_nores)
+    = Some [("lookup", "OTLPResourceNoServiceName"); ("render", "cart")]
+  /\ option_map (@List.length _) (pushed_of ex_otlp_nores) = Some 2%nat
+  /\ spec_ok (model_case fixed ex_otlp_nores) = true
+  /\ decode (with_quirk 6) ex_otlp_nores = None.
+Proof. vm_compute. repeat split; reflexivity. Qed.
 (* microseconds * 1000 beyond int64: the write path before the repair stored the wrapped-around product (here a span of
    the year 2262 with a NEGATIVE start time); now the request is refused *)
 Definition overflow_span : jv :=
@@ -1104,8 +1118,8 @@ Example legacy_time_wraps :
   /\ decode fixed (InZipkin false [overflow_span]) = None.
 Proof. vm_compute. repeat split. Qed.
 Example legacy_ndjson_state :
-  spec_ok (model_case {| q_list_drop := false; q_remote_inverted := false; q_nd_stateful := true; q_peer_first := false; q_parent_payload := false; q_time_wrap := false |} (ex_zipkin true)) = false
-  /\ spec_ok (model_case {| q_list_drop := false; q_remote_inverted := false; q_nd_stateful := true; q_peer_first := false; q_parent_payload := false; q_time_wrap := false |} (ex_zipkin false)) = true.
+  spec_ok (model_case (with_quirk 2) (ex_zipkin true)) = false
+  /\ spec_ok (model_case (with_quirk 2) (ex_zipkin false)) = true.
 Proof. vm_compute. split; reflexivity. Qed.
 
 (* ================================================================== the check's oracle accepts the model's own output
@@ -1269,8 +1283,7 @@ Proof.
        exfalso. apply (accepted_denotes_l nd es rows Ed Hwf Ep). }
   destruct (forallb widths_ok ps); [|reflexivity].
   destruct inp as [b|nd es]; cbn [decode in_elems in_range] in *.
-  - cbn [pushed_of] in Ep. destruct (forallb r_has_res b) eqn:Hres; [|discriminate].
-    rewrite (otlp_decode_flat b Hres) in Ed.
+  - cbn [pushed_of] in Ep. rewrite (otlp_decode_flat b) in Ed.
     pose proof (otlp_checked_all b _ _ _ Hr Ed Ep) as F.
     assert (F1 : Forall2 (fun p sr => forall i, row_ok (InOtlp b) i p (fst sr) = true) ps rows)
       by (eapply Forall2_imp; [|exact F]; intros p sr H i; apply (H i)).
